@@ -136,7 +136,8 @@ def build(c):
             objs[i] = TRS(spell(i))
     else:
         for rank, i in enumerate(order):
-            objs[i] = Tract("NE/4", trs=spell(i))
+            # (orig_index: the position each tract had in the description it came from - tracts of several descriptions in one list)
+            objs[i] = Tract("NE/4", trs=spell(i), orig_index=(i * 7 + 3) % 5)
             uid[id(objs[i])] = rank
     lst = list(objs)
     for p in c["dup"]:
